@@ -71,7 +71,7 @@ func VerifC11Abort() {
 	// ---- request 1: aborted
 	ctx1, cancel1 := context.WithCancel(context.Background())
 	fault := vstub.NdChoice("fault", 4) // 0: cancel, 1: one fetch fails, 2: cancel and fetch failure, 3: none (control)
-	at := vstub.NdChoice("at", n+2)      // 0: before the request; k>=1: at the k-th fetch; n+1: never reached (after the last fetch)
+	at := vstub.NdChoice("at", n+2)     // 0: before the request; k>=1: at the k-th fetch; n+1: never reached (after the last fetch)
 	failHash := ""
 	if fault == 1 || fault == 2 {
 		failHash = vstub.BlockKey(all[vstub.NdChoice("failWhich", len(all))].GetHash())
